@@ -89,6 +89,36 @@ fn failed_outcome(msg: String) -> Outcome {
     }
 }
 
+/// Once per process, before anything that counts: execute a fixed two-machine script so that
+/// every process-global lazy initialisation in the linked libraries (global hasher seeds,
+/// SQLite's one-time setup, ...) happens outside the measured runs. Without this the first run
+/// of every process would see two extra entropy draws.
+pub fn warm_up() {
+    use script::{Cfg, Event};
+    let s = Script {
+        seed: 0xC44,
+        cfg: Cfg {
+            machines: 2,
+            users: 1,
+            cache_timeout: 300,
+            service_token: true,
+            initial_passwords: vec!["warm-up".into()],
+        },
+        events: vec![
+            Event::Boot { m: 0 },
+            Event::Boot { m: 1 },
+            Event::Login { m: 0, u: 0, pw: "warm-up".into() },
+            Event::Lookup { m: 1, u: 0 },
+            Event::CopyToken { u: 0, from: 0, to: 1 },
+            Event::CopyDb { from: 0, to: 1 },
+            Event::Net { mode: "unreachable".into() },
+            Event::Boot { m: 0 },
+            Event::Login { m: 0, u: 0, pw: "warm-up".into() },
+        ],
+    };
+    let _ = run_script(&s, "warm");
+}
+
 pub fn script_digest(s: &Script) -> String {
     let mut f = Fnv::new();
     f.line(&serde_json::to_string(&s.cfg).unwrap_or_default());
@@ -337,6 +367,9 @@ fn minimise_cmd(a: &Args) -> i32 {
 
 pub fn main() -> i32 {
     let a = parse_args();
+    if matches!(a.pos.first().map(|s| s.as_str()), Some("batch" | "replay" | "minimise" | "selftest")) {
+        warm_up();
+    }
     let code = match a.pos.first().map(|s| s.as_str()) {
         Some("batch") => batch(&a),
         Some("replay") => replay(&a),
